@@ -5,7 +5,12 @@ SABR, shifted SABR and the Hull-White zero-coupon-bond option as coded; cap - fl
 caplet list with the first-period intrinsic branch; payer - receiver = pv01*(F-K)*notional = forward swap value;
 Jamshidian put - call; the Black clamp at zero volatility), C08b.lean (backward induction without exercise is a linear
 operator => call - put on the HW/BK/BDT trees = tree value of (underlying - strike); pay - receive on the swaption
-trees; bermudan >= european; non-negativity).
+trees; bermudan >= european; non-negativity), C08c.lean (each model's own GENERATED price function - black.py, black_shifted.py,
+bachelier.py, sabr.py, sabr_shifted.py, hw_tree.py option_on_zcb - is a Black form / normal form: intrinsic <= value <= annuity
+bound, vega >= 0, monotone in vol and strike, zero-vol limit = discounted intrinsic; hand sabrValue / hwZcb = generated),
+C08d.lean (lift to caplets, to cap/floor over any number of caplets by induction, to swaptions), C08e.lean (tree options monotone
+in payoff/strike, bounded by the underlying, European swaption kernel from the root, BDT bermudan >= european), C08n.lean (the
+standard normal cdf satisfies the hypothesis bundle).
 Correspondence: IborCapFloor per-caplet tables and totals, IborSwaption values vs the hand model (Driver/C08) built on
 the GENERATED Black-family kernels (Gen/BSF).
 Direct oracles on the implementation (every run): see the oracle_* functions."""
@@ -19,12 +24,15 @@ sys.path.insert(0, os.path.dirname(os.path.dirname(os.path.abspath(__file__))))
 import common as C  # noqa: E402
 from floatcmp import f2b, b2f, close  # noqa: E402
 
-GEN = ['BSF', 'BSR', 'BSP']
-PROPS = ['FinVerif.Props.C08a', 'FinVerif.Props.C08b']
+GEN = ['BSF', 'BSR', 'BSP', 'RateOptF', 'RateOptP']
+PROPS = ['FinVerif.Props.C08a', 'FinVerif.Props.C08b', 'FinVerif.Props.C08c', 'FinVerif.Props.C08d', 'FinVerif.Props.C08e',
+         'FinVerif.Props.C08n']
 DRIVERS = ['FinVerif.Driver.C08']
-EXTRA_FILES = ['FinVerif/Model/C08.lean', 'FinVerif/Spec/C08.lean']
+EXTRA_FILES = ['FinVerif/Model/C08.lean', 'FinVerif/Spec/C08.lean', 'FinVerif/Lemmas/C08.lean']
 
-RULE = ('cap/floor: seed-chosen (curve kind x value date x start x tenor x frequency x day count x notional x strike '
+RULE = ('model functions: (forward x strike/forward in {0.4..2.5} x expiry in {1M..10Y} x discount factor) x (Black, shifted Black, Bachelier, SABR, shifted SABR) valued by the model class itself, call with put; '
+        'HWTree.option_on_zcb on (curve shape x sigma x a incl. the SMALL clamp x expiry x bond maturity x strike around the forward price). '
+        'cap/floor: seed-chosen (curve kind x value date x start x tenor x frequency x day count x notional x strike '
         'ITM/ATM/OTM/zero x first fixing) x every model the product accepts (Black, shifted Black, Bachelier, SABR, shifted '
         'SABR, HW); every cap is valued together with its floor and with the independently built FRA strip. swaption: '
         '(curve x settle x exercise x maturity x fixed frequency/day count x float frequency/day count x notional x strike) '
@@ -926,7 +934,183 @@ def oracle_reuse(case):
     return out
 
 
-ORACLES = {'capfloor': oracle_capfloor, 'capfloor_monotone': oracle_capfloor_monotone, 'swaption': oracle_swaption,
+
+# ------------------------------------------------------------------------------------------ model price functions (one option)
+PHI0 = 0.3989422804014327
+N_ERR = 2e-7          # utils.math.N is Hull's polynomial: |N - Phi| < 7.5e-8; a bound df*(a*N(d1) - b*N(d2)) moves by < 1.5e-7*df*(a+b)
+MODELFN = ('black', 'shifted', 'bachelier', 'sabr', 'sabrshifted')
+
+
+def modelfn_value(case, ty, k=None, vol=None):
+    """the model class's own price function on one option: Black.value / BlackShifted.value / Bachelier.value / SABR.value /
+    SABRShifted.value(f, k, t, df, type)."""
+    spec = dict(case['model'])
+    if vol is not None:
+        spec['vol'] = vol
+    typ = E.OptionTypes.EUROPEAN_CALL if ty == 1 else E.OptionTypes.EUROPEAN_PUT
+    return float(make_model(spec).value(case['f'], case['k'] if k is None else k, case['t'], case['df'], typ))
+
+
+def oracle_modelfn(case, curve=None, collect=None):
+    """executable reading of Props/C08c on the implementation: parity, intrinsic <= value <= bound, monotone in strike and
+    (constant-vol models) in vol, vega >= 0, for the model class's price function itself."""
+    out = Fails()
+    spec = case['model']
+    mk = spec['kind']
+    f, k, t, df = case['f'], case['k'], case['t'], case['df']
+    sh = spec.get('shift', 0.0) if mk == 'shifted' else 0.0
+    call, put = modelfn_value(case, 1), modelfn_value(case, 2)
+    nerr = 0.0 if mk == 'bachelier' else N_ERR * df * (f + k + 2 * sh)
+    tol = 1e-12 * df * (abs(f) + abs(k) + sh) + nerr
+    if abs(call - put - df * (f - k)) > tol:
+        out.add('model-parity', f'{mk}.value: call - put = {call - put!r}, df*(F-K) = {df * (f - k)!r}', call=call, put=put)
+    ic, ip = df * max(f - k, 0.0), df * max(k - f, 0.0)
+    if call < ic - tol or put < ip - tol:
+        out.add('model-ge-intrinsic', f'{mk}.value below discounted intrinsic: call {call!r} < {ic!r} or put {put!r} < {ip!r}', call=call, put=put)
+    if mk == 'bachelier':
+        ub = df * spec['vol'] * math.sqrt(t) * PHI0
+        if call > ic + ub + tol or put > ip + ub + tol:
+            out.add('model-bound', f'bachelier.value time value above df*vol*sqrt(t)/sqrt(2pi): call {call!r}, put {put!r}', call=call, put=put)
+    elif call > df * (f + sh) + tol or put > df * (k + sh) + tol:
+        out.add('model-bound', f'{mk}.value: call {call!r} > df*(F+s) = {df * (f + sh)!r} or put {put!r} > df*(K+s) = {df * (k + sh)!r}',
+                call=call, put=put)
+    if mk in ('black', 'shifted', 'bachelier'):
+        k2 = k * 1.07 + (0.0005 if mk == 'bachelier' else 0.0)
+        c2, p2 = modelfn_value(case, 1, k=k2), modelfn_value(case, 2, k=k2)
+        if c2 > call + tol or p2 < put - tol:
+            out.add('model-monotone-strike', f'{mk}.value: strike {k!r} -> {k2!r}: call {call!r} -> {c2!r}, put {put!r} -> {p2!r}')
+        v2 = spec['vol'] * 1.25
+        c3, p3 = modelfn_value(case, 1, vol=v2), modelfn_value(case, 2, vol=v2)
+        if c3 < call - tol or p3 < put - tol:
+            out.add('model-monotone-vol', f'{mk}.value: vol {spec["vol"]!r} -> {v2!r}: call {call!r} -> {c3!r}, put {put!r} -> {p3!r}')
+    if mk == 'black':
+        from financepy.models.black import black_vega
+        r = -math.log(df) / t
+        vg = float(black_vega(f, t, k, r, spec['vol'], E.OptionTypes.EUROPEAN_CALL))
+        if vg < 0.0:
+            out.add('model-vega', f'black_vega = {vg!r} < 0')
+        h = 1e-5
+        num = (modelfn_value(case, 1, vol=spec['vol'] + h) - modelfn_value(case, 1, vol=spec['vol'] - h)) / (2 * h)
+        if abs(vg - num) > 1e-6 * max(abs(vg), df * f * math.sqrt(t) * PHI0) + nerr / h:
+            out.add('model-vega', f'black_vega = {vg!r}, central difference of Black.value in vol = {num!r}')
+        if collect is not None:
+            collect['vega'] = vg
+    if collect is not None:
+        collect.update({'call': call, 'put': put})
+    return out
+
+
+def hwzcb_inputs(case):
+    ts = E.np.array(case['df_times'], dtype=float)
+    vs = E.np.array(case['df_values'], dtype=float)
+    pe = float(E._uinterpolate(float(case['texp']), ts, vs, E.InterpTypes.FLAT_FWD_RATES.value))
+    pm = float(E._uinterpolate(float(case['tmat']), ts, vs, E.InterpTypes.FLAT_FWD_RATES.value))
+    return ts, vs, pe, pm
+
+
+def oracle_hwzcb(case, curve=None, collect=None):
+    """HWTree.option_on_zcb: put - call = strike*P(t_exp) - face*P(t_mat); intrinsic <= value <= face*P(t_mat) / strike*P(t_exp);
+    call falls / put rises with the strike (Props/C08a hw_zcb_put_minus_call, C08c hw_zcb_bounds, hw_zcb_monotone_in_strike)."""
+    out = Fails()
+    ts, vs, pe, pm = hwzcb_inputs(case)
+    m = E.HWTree(case['sigma'], case['a'])
+    X, face = case['strike'], case['face']
+    v = m.option_on_zcb(case['texp'], case['tmat'], X, face, ts, vs)
+    c, p = float(v['call']), float(v['put'])
+    A, B = face * pm, X * pe
+    tol = 1e-12 * (A + B) + N_ERR * (A + B)
+    if abs(p - c - (B - A)) > tol:
+        out.add('hwzcb-parity', f'option_on_zcb: put - call = {p - c!r}, strike*P(t_exp) - face*P(t_mat) = {B - A!r}', call=c, put=p)
+    if c < max(A - B, 0.0) - tol or p < max(B - A, 0.0) - tol or c > A + tol or p > B + tol:
+        out.add('hwzcb-bounds', f'option_on_zcb: call {c!r} not in [{max(A - B, 0.0)!r}, {A!r}] or put {p!r} not in [{max(B - A, 0.0)!r}, {B!r}]', call=c, put=p)
+    v2 = m.option_on_zcb(case['texp'], case['tmat'], X * 1.03, face, ts, vs)
+    if float(v2['call']) > c + tol or float(v2['put']) < p - tol:
+        out.add('hwzcb-monotone-strike', f'option_on_zcb: strike {X!r} -> {X * 1.03!r}: call {c!r} -> {float(v2["call"])!r}, put {p!r} -> {float(v2["put"])!r}')
+    if collect is not None:
+        collect.update({'call': c, 'put': p, 'pe': pe, 'pm': pm})
+    return out
+
+
+def gen_modelfn(rng, mkind):
+    f = rng.uniform(0.002, 0.09)
+    k = f * rng.choice([0.4, 0.7, 0.9, 1.0, 1.1, 1.5, 2.5]) * rng.uniform(0.97, 1.03)
+    t = rng.choice([0.08, 0.25, 1.0, 3.0, 10.0]) * rng.uniform(0.9, 1.1)
+    df = math.exp(-rng.uniform(0.0, 0.06) * t)
+    return {'model': gen_model(rng, mkind, f), 'f': f, 'k': k, 't': t, 'df': df}
+
+
+def gen_hwzcb(rng):
+    z = zero_shape(rng, rng.choice(['up', 'inv', 'hump']))
+    ts = [0.0] + [0.25 * i for i in range(1, 9)] + [2.0 + 0.5 * i for i in range(1, 17)] + [12.0, 15.0, 20.0, 30.0]
+    vs = [math.exp(-z(x) * x) for x in ts]
+    texp = rng.choice([0.1, 0.5, 1.0, 2.5, 5.0]) * rng.uniform(0.9, 1.1)
+    tmat = texp + rng.choice([0.25, 0.5, 1.0, 3.0, 8.0]) * rng.uniform(0.9, 1.1)
+    face = rng.choice([1.0, 100.0])
+    case = {'model': {'kind': 'hw'}, 'sigma': rng.choice([0.002, 0.006, 0.01, 0.02]), 'a': rng.choice([1e-12, 0.03, 0.1, 0.3]),
+            'texp': texp, 'tmat': tmat, 'face': face, 'df_times': ts, 'df_values': vs}
+    _, _, pe, pm = hwzcb_inputs(dict(case, strike=1.0))
+    case['strike'] = face * pm / pe * rng.choice([0.9, 0.98, 1.0, 1.02, 1.1])
+    return case
+
+
+def modelfn_ops(case, got):
+    spec = case['model']
+    mk = spec['kind']
+    code = {'black': 1, 'shifted': 2, 'bachelier': 3, 'sabr': 4, 'sabrshifted': 5}[mk]
+    if mk in ('sabr', 'sabrshifted'):
+        p1, p2 = float(make_model(spec).black_vol(case['f'], case['k'], case['t'])), 0.0
+    else:
+        p1, p2 = spec['vol'], spec.get('shift', 0.0)
+    ops = [f'MODELVAL {code} {ty} ' + fl([case['f'], case['k'], case['t'], case['df'], p1, p2]) for ty in (1, 2)]
+    if mk == 'black':
+        r = -math.log(case['df']) / case['t']
+        ops.append('BLACKVEGA ' + fl([case['f'], case['t'], case['k'], r, spec['vol']]) + ' 1')
+    return ops
+
+
+def hwzcb_op(case, got):
+    return 'HWZCB ' + fl([case['texp'], case['tmat'], case['strike'], case['face'], got['pe'], got['pm'], case['sigma'], case['a']])
+
+
+def compare_modelfn(ctx, ops, keep):
+    """generated price functions (and the hand model beside them) vs the implementation, one option at a time."""
+    try:
+        import exedriver
+        ans = exedriver.run('c08driver', 'C08', ops, par=False)
+    except Exception as e:  # noqa: BLE001
+        ctx.broke(f'model driver failed on MODELVAL/HWZCB ops: {str(e)[:300]}')
+        return
+    ncmp = nbad = nhand = 0
+    for (what, case, iv), op, a in zip(keep, ops, ans):
+        t = a.split()
+        mk = case['model']['kind']
+        if not t or t[0].startswith('E:') or t[0] == 'bad-op':
+            ctx.broke(f'correspondence {what}[{mk}]: model answered {a[:60]} on {short(case)}')
+            continue
+        vals = [b2f(x) for x in t]
+        rt = 1e-7 if mk == 'bachelier' else 1e-9
+        scale = abs(case.get('face', 1.0)) if mk == 'hw' else case['df'] * (case['f'] + case['k'])
+        at = (1e-8 if mk == 'bachelier' else 1e-10) * scale
+        gen = vals[:len(iv)]
+        for i, (x, y) in enumerate(zip(iv, gen)):
+            ncmp += 1
+            if not close(x, y, rtol=rt, atol=at):
+                nbad += 1
+                if nbad <= 3:
+                    ctx.broke(f'correspondence {what}[{mk}]: generated {y!r} vs implementation {x!r} (output {i}) on {short(case)}')
+        hand = vals[len(iv):]
+        for i, (y, h) in enumerate(zip(gen, hand)):
+            nhand += 1
+            if not close(y, h, rtol=1e-13, atol=1e-15 * scale):
+                nbad += 1
+                if nbad <= 3:
+                    ctx.broke(f'correspondence {what}[{mk}]: hand model {h!r} vs generated {y!r} (output {i}) on {short(case)}')
+    ctx.count('modelfn-vs-generated', ncmp, ncmp, sample={'op': ops[0][:100] + ' ...'})
+    ctx.cov['components']['modelfn-vs-generated']['disagree_model'] = nbad
+    ctx.cov['components']['modelfn-vs-generated']['hand_vs_generated'] = nhand
+
+
+ORACLES = {'modelfn': oracle_modelfn, 'hwzcb': oracle_hwzcb, 'capfloor': oracle_capfloor, 'capfloor_monotone': oracle_capfloor_monotone, 'swaption': oracle_swaption,
            'swaption_monotone': oracle_swaption_monotone, 'bondoption': oracle_bondoption, 'bermudan': oracle_bermudan,
            'reuse': oracle_reuse}
 
@@ -1186,6 +1370,37 @@ def run(ctx):
                           dict(case, component=comp), clause='raises')
             return None
 
+    # ---- the model classes' own price functions, one option at a time (Props/C08c) + generated-kernel correspondence
+    rng = ctx.rng('modelfn')
+    nfn = 40 if quick else 400
+    ops, keep = [], []
+    for it in range(nfn):
+        for mkind in MODELFN:
+            case = gen_modelfn(rng, mkind)
+            got = {}
+            fails = guarded('modelfn', case, lambda: oracle_modelfn(case, None, got))
+            if fails is None:
+                continue
+            report(ctx, 'modelfn', case, fails)
+            ctx.count('modelfn-oracles/' + mkind, 8, 8, sample={'model': case['model'], 'f': case['f'], 'k': case['k'], 't': case['t'],
+                                                                 'df': case['df'], 'call': got.get('call'), 'put': got.get('put')})
+            if drivers_ok and got:
+                new = modelfn_ops(case, got)
+                ops += new
+                keep += [('modelfn', case, [got['call']]), ('modelfn', case, [got['put']])] + \
+                    ([('black_vega', case, [got['vega']])] if len(new) == 3 else [])
+        case = gen_hwzcb(rng)
+        got = {}
+        fails = guarded('hwzcb', case, lambda: oracle_hwzcb(case, None, got))
+        if fails is not None:
+            report(ctx, 'hwzcb', case, fails)
+            ctx.count('modelfn-oracles/hw', 4, 4, sample={k: case[k] for k in ('sigma', 'a', 'texp', 'tmat', 'strike', 'face')})
+            if drivers_ok and got:
+                ops.append(hwzcb_op(case, got))
+                keep.append(('option_on_zcb', case, [got['call'], got['put']]))
+    if drivers_ok and ops:
+        compare_modelfn(ctx, ops, keep)
+
     # ---- caps and floors
     rng = ctx.rng('capfloor')
     cap_models = ['black', 'shifted', 'bachelier', 'sabr', 'sabrshifted', 'hw']
@@ -1313,6 +1528,9 @@ def run(ctx):
     ctx.assumptions += [
         'theorems are about the model read over the reals; floating-point rounding is covered only by the tolerances of the correspondence and of the oracles',
         'the normal cdf enters the parity theorems only through Phi(x) + Phi(-x) = 1 at the arguments that occur (true for the coded Hull polynomial N at x != 0, and for any exact cdf)',
+        'bounds, monotonicity, vega and zero-volatility theorems (C08c, C08d) are about the exact normal cdf: hypothesis bundle IsNormalCdf (Phi\' = phi = c exp(-x^2/2), '
+        'c > 0, symmetry, Phi(+inf) = 1), satisfied by the standard normal (C08n, exists_normalCdf); the coded Hull polynomial differs from it by < 7.5e-8, which the '
+        'model-function oracles allow for (N_ERR)',
         'SABR / shifted SABR: the Black volatility returned by the (njit) Hagan formula is a parameter of the model; parity needs only that both legs use the same number',
         'Jamshidian root r*: parameter with the postcondition "bond price at r* = strike + accrued"; BK/BDT drift searches: C03',
         'convergence of tree prices to the curve-implied forward is validated numerically only: tolerance (coupon + rate bound) x dt x 2.0 x face (bond options), '
@@ -1322,7 +1540,8 @@ def run(ctx):
     return C.finish(ctx, 'proof',
                     'lake build ' + ' '.join(PROPS) + ' && lake env lean .cache/audit/Audit_C08.lean',
                     C.TRUSTED_BASE_COMMON + ['Spec/C08.lean: strip of forward-rate payments, forward swap value, linear pricing operator',
-                                             'translator tools/py2lean for the Black-family kernels (Gen/BSF executed, Gen/BSR, Gen/BSP in the theorems)',
+                                             'translator tools/py2lean for the Black-family kernels (Gen/BSF executed, Gen/BSR, Gen/BSP in the theorems) and for SABR.value, '
+                                             'SABRShifted.value, HWTree.option_on_zcb (Gen/RateOptF executed next to the hand model, Gen/RateOptP in the theorems)',
                                              'hand model Model/C08.lean tied to IborCapFloor / IborSwaption by per-caplet and per-trade correspondence'],
                     RULE)
 
